@@ -35,7 +35,7 @@ m = {
     },
     "engines": [
         {"name": "verus-contracts", "path": "/verif/check", "serves_properties": [c["property_id"] for c in checks],
-         "kind_free_text": "tools/vx extracts the named real functions from /repo's working tree on every run, weaves the contracts of units/<ID>/*.vx.rs around the unmodified bodies (rewrites R1-R9, DESIGN §2.3), Verus/Z3 discharges every obligation; vacuity clone per function; Kani/CBMC for unsafe/byte-level leaves"},
+         "kind_free_text": "tools/vx extracts the named real functions from /repo's working tree on every run, weaves the contracts of units/<ID>/*.vx.rs around the unmodified bodies (rewrites R1-R24, DESIGN §2.3 and §8.1), Verus/Z3 discharges every obligation; vacuity clone per function; Kani/CBMC for unsafe/byte-level leaves"},
     ],
     "checks": checks,
     "not_applicable": na,
